@@ -29,7 +29,7 @@ import (
 
 func TestMain(m *testing.M) {
 	stats.Init("C09")
-	stats.Rule("(A) receiver in {rep,xrep,respondent,xrespondent,pair1,xpair1,star,xstar} x TTL (boundary-biased 1..255; thorough: all) x hop count k in TTL-1..TTL+2 (plus uniform), random routing-word content, each probe followed by an in-limit sentinel; (B) Device chains of 0..4 hops (req/rep, survey, pair1, pipeline) over inproc/tcp with 1-3 concurrent clients and server TTL near the chain length. Also: (C) raw senders with TTL t given hop information t-1..t+2. Non-trivial: k in {TTL, TTL+1} (PAIR1: TTL+1, TTL+2), or chain length>=2 with >=2 clients; distinct by (receiver,TTL,k) resp. (pattern,transport,chain,clients,TTL)")
+	stats.Rule("(A) receiver in {rep,xrep,respondent,xrespondent,pair1,xpair1,star,xstar} x TTL (boundary-biased 1..255; thorough: all) x hop count k in TTL-1..TTL+2 (plus uniform), random routing-word content, each probe followed by an in-limit sentinel; (B) Device chains of 0..4 hops (req/rep, survey, pair1, pipeline) over inproc/tcp with 1-3 concurrent clients and server TTL near the chain length. Also: (C) raw senders with TTL t given hop information t-1..t+2. Non-trivial: k in {TTL, TTL+1} (PAIR1: TTL+1, TTL+2), or chain length>=2 with >=2 clients; distinct by (receiver,TTL,k) resp. (pattern,transport,chain,clients,TTL). Round 5: loop-back devices written Device(s,s) / Device(s,nil) / Device(nil,s) on raw pair, pair1, bus with an order oracle over 200-3000 pipelined messages")
 	rc := m.Run()
 	stats.Flush()
 	fixture.Cleanup()
